@@ -13,6 +13,7 @@
 //                  that view one shared buffer see the same `data` (axiom_shared_buffer).
 // ======================================================================================
 pub const MAX_INLINE_LEN: usize = 8;
+pub mod buf32 { pub const MAX_LEN: usize = u32::MAX as usize; }
 pub const MAX_INLINE_TAG: usize = 0xF;
 pub const EMPTY_TAG: usize = 0xF;
 pub const OFLOW: &'static str = "tendril: overflow in buffer arithmetic";
@@ -107,6 +108,12 @@ impl Tendril {
     { unimplemented!() }
     #[verifier::external_body]
     pub fn new() -> (r: Tendril) ensures r.wf(), r.tag == EMPTY_TAG { unimplemented!() }
+    /// a fresh heap buffer holding a copy of the bytes (ASSUMED: representation layer)
+    #[verifier::external_body]
+    pub unsafe fn owned_copy(x: &[u8]) -> (r: Tendril)
+        requires x@.len() <= u32::MAX,
+        ensures r.wf(), r.is_heap(), !r.shared_bit(), r.view() == x@,
+    { unimplemented!() }
     #[verifier::external_body]
     pub fn as_byte_slice(&self) -> (r: &[u8]) requires self.wf() ensures r@ == self.view() { unimplemented!() }
     /// appends (copy on write; grows / un-shares as needed).  Stated for formats without concatenation fix-ups
@@ -148,3 +155,27 @@ pub fn f_validate_prefix(b: &[u8]) -> (r: bool) ensures r == fmt_valid_prefix(b@
 pub fn f_validate_suffix(b: &[u8]) -> (r: bool) ensures r == fmt_valid_suffix(b@) { unimplemented!() }
 #[verifier::external_body]
 pub fn f_validate_subseq(b: &[u8]) -> (r: bool) ensures r == fmt_valid_subseq(b@) { unimplemented!() }
+// ---- the format's character iterator (F::char_indices), for pop_front_char ----
+/// the characters of the content with the byte offset each starts at (ASSUMED: what `F::char_indices` yields; for UTF-8 the
+/// code points of the valid string; offsets start at 0, increase strictly and stay below the length; no characters iff no bytes)
+pub uninterp spec fn fmt_chars(b: Seq<u8>) -> Seq<(usize, char)>;
+#[verifier::external_body]
+pub proof fn axiom_fmt_chars(b: Seq<u8>)
+    ensures
+        (fmt_chars(b).len() == 0) == (b.len() == 0),
+        fmt_chars(b).len() > 0 ==> fmt_chars(b)[0].0 == 0,
+        forall|i: int, j: int| 0 <= i < j < fmt_chars(b).len() ==> (#[trigger] fmt_chars(b)[i]).0 < (#[trigger] fmt_chars(b)[j]).0,
+        forall|i: int| 0 <= i < fmt_chars(b).len() ==> (#[trigger] fmt_chars(b)[i]).0 < b.len(),
+{}
+pub struct CharIndices { pub items: Ghost<Seq<(usize, char)>>, pub pos: Ghost<int> }
+impl CharIndices {
+    #[verifier::external_body]
+    pub fn next(&mut self) -> (r: Option<(usize, char)>)
+        requires 0 <= old(self).pos@ <= old(self).items@.len(),
+        ensures final(self).items == old(self).items,
+                old(self).pos@ < old(self).items@.len() ==> r == Some(old(self).items@[old(self).pos@]) && final(self).pos@ == old(self).pos@ + 1,
+                old(self).pos@ >= old(self).items@.len() ==> r is None && final(self).pos == old(self).pos,
+    { unimplemented!() }
+}
+#[verifier::external_body]
+pub fn f_char_indices(b: &[u8]) -> (r: CharIndices) ensures r.items@ == fmt_chars(b@), r.pos@ == 0 { unimplemented!() }
